@@ -331,7 +331,10 @@ def run(plan, sched_values=None, sched_seed=0):
             # with the session's other pending reads for the last packets;
             # which of them is served and which runs into its time-out is a
             # tie between readers
-            ends = [t for _r, t in da + db]
+            # (a raw request may address another client's session: the
+            # ends of all of them count)
+            ends = [t for i in DA for _r, t in DA[i]] + \
+                   [t for i in DB for _r, t in DB[i]]
             if ra[0] == 'GET' and ra[2] != rb[2] and any(
                     ra[3] < te and max(x for x in (ra[5], rb[5], te)
                                        if x is not None) >= te - 4 * TICK
